@@ -30,6 +30,14 @@ def handleC15 : List String → String
     match fromHex buf, hexList sock, n.toNat? with
     | some buf, some sock, some n => showHexList (Conn.reads n ⟨buf, sock⟩)
     | _, _, _ => "bad-op"
+  -- `Read(n)` with a read size: policy `w` = the code (whole buffer first), `k` = at most n bytes and
+  -- keep the rest, `d` = copy n bytes and drop the rest
+  | ["readsn", pol, size, buf, sock, k] =>
+    match fromHex buf, hexList sock, size.toNat?, k.toNat? with
+    | some buf, some sock, some size, some k =>
+      let p := if pol == "k" then BufPolicy.keepRest else if pol == "d" then BufPolicy.dropRest else BufPolicy.whole
+      showHexList (Conn.readsN p size k ⟨buf, sock⟩)
+    | _, _, _, _ => "bad-op"
   -- consecutive openings of one transport object: `flags` has one `1`/`0` per opening (the caller
   -- read after it / nobody read), `ops` the bytes of each negotiation phase
   | ["history", flags, ops] =>
